@@ -19,6 +19,18 @@ first reduce its operand to a single row ("pre": "row") or put a length-one axis
 the library's unsqueeze(0) ("pre": "unsq0"), and can restrict the repetition to the batch axes
 of length one ("only1").
 
+The op "life" follows ONE mutable Points object (a private copy of a pool object) through several
+calls: steps {"do": "coords" | "repr" | "track" | "get" | "set" | "to", "look": bits}.  "to" is
+Points.to(...) - the in-place conversion of the underlying tensor - in the spellings to(dtype),
+to(dtype=..), to('cpu', dtype), to(device=.., dtype=..), to(other_tensor), to(dtype, copy=True),
+to('cpu'); "dtype": "flip" changes float32 <-> float64 (a really new tensor), "same" keeps it (a
+no-op except with copy=True).  "set" assigns IN PLACE to the object itself.  After every step the
+observers selected by "look" (1: as_tensor/space/derived attributes, 2: .coordinates, 4: p[..., name]
+for every variable) and after the last step all of them must describe the same table, the model
+(model of to(): numpy astype, IEEE round-to-nearest like torch).  Violations are named
+<observer>-after-<last call that changed the object: new | to | setitem>.  With "keep" the object is
+converted back to the dtype of the case and joins the pool as operand of later steps.
+
 Index expressions are JSON: {"form", "items", "k", "kp", "sel", "bits"} with tagged items
   {"t":"int","v":..} {"t":"slice","a","b","s"} {"t":"mask","bits":[..],"as":"torch|numpy"}
   {"t":"idx","v":[..],"as":"torch|numpy|list"}
@@ -59,7 +71,13 @@ RULE = ("Hypothesis draws a history: an initial Points (1-5 variables of dim 1-4
         "commutation, join (either side, with empty, overlapping names rejected), 3-way join "
         "associativity, joined (with empties at any position), | (fresh/self/empty/other space "
         "rejected), repeat, unsqueeze, + - * / **, == (copy / reordered space / renamed / "
-        "perturbed cell / other object), track_coord_gradients, iteration, and Space product / "
+        "perturbed cell / other object), track_coord_gradients, iteration, life (1-8 calls on ONE "
+        "object: coordinates / repr / track_coord_gradients / getitem reads, Points.to in 7 "
+        "spellings - 3 of 4 with a real float32<->float64 change, else same dtype with or without "
+        "copy=True - and in-place assignments; after each call a drawn subset of the observers "
+        "as_tensor+attributes / coordinates / selection of each variable by name, at the end all "
+        "of them, must equal the model; half of the lives are converted back and kept as pool "
+        "object), and Space product / "
         "containment / indexing / dim / equality. Index expressions are drawn from the "
         "documented grammar only and normalised to the target's shape; name slices (column "
         "selector of Points and Space[...]) carry a step in about half of the draws (-1,-2,-3,2,1; "
@@ -83,7 +101,12 @@ RULE = ("Hypothesis draws a history: an initial Points (1-5 variables of dim 1-4
         "name slices (all open/closed bound combinations, steps -1,-2,-3,2,1) for Space[...], "
         "getitem, setitem and commutation, and repeat (x single row / unsqueeze(0) / as is, "
         "x counts (1),(k),(k,1,2)) plus every other result-producing operation followed by six "
-        "fixed probe writes on batches (1),(4),(1,3),(3,1),(2,1,2).")
+        "fixed probe writes on batches (1),(4),(1,3),(3,1),(2,1,2), and 17 pinned lives (read - "
+        "to - read - assign - read for every spelling of to; read only through repr / track / "
+        "the final observers; copy=True with unchanged dtype; no read before the conversion; no-op "
+        "conversions; there-and-back with assignments in both precisions; kept objects used by "
+        "later coords/track/iter/eq/get/commute/life steps) on float32 and float64 objects with "
+        "batches (3),(2,3),(3,1,2).")
 ASSUMPTIONS = [
     "index grammar = forms shown in the Points docstring, tests/test_points.py and used inside "
     "src/torchphysics; bare list indices, trailing Ellipsis, negative steps on batch axes, "
@@ -96,7 +119,18 @@ ASSUMPTIONS = [
     "1e-12 (float64) / 1e-5 (float32) relative tolerance because pow is not correctly rounded",
     "setitem index arrays are de-duplicated (assignment order with duplicates is unspecified)",
     "Space containment is only asked for candidates whose shared names have equal dimensions",
-    "pool objects are never mutated, setitem is applied to a clone; whether a result aliases its "
+    "Points.to(*args) forwards to torch.Tensor.to, rebinds the tensor of the SAME object and "
+    "returns a Points (callers write p = p.to(..)); the check continues with the returned object. "
+    "Only CPU conversions are generated (dtype float32<->float64, copy=True, device 'cpu'); "
+    "Points.cuda and other devices are not exercised. float64->float32 is modelled by numpy "
+    "astype (IEEE round to nearest even, identical to torch); objects with non-finite cells get "
+    "no life",
+    "after any sequence of reads, to() and assignments on one object, as_tensor, .coordinates "
+    "(dtype, shape, bytes) and p[..., name] describe the same table (property: observe as_tensor / "
+    ".coordinates / .space after each operation); whether coordinates are views or require grad "
+    "is not asserted",
+    "pool objects are never mutated, setitem is applied to a clone (only the private object of a "
+    "life step is assigned to in place, and it enters the pool after its last call); whether a result aliases its "
     "operand is only asserted (through a follow-up write into the result, on private operand "
     "copies) for repeat, join/| of two non-empty operands, joined and arithmetic, where the "
     "unmodified library allocates the result; for unsqueeze/indexing (torch views) only 'a "
@@ -679,22 +713,31 @@ def op_new(S, op):
     push(S, real, m, ok)
 
 
-def op_coords(S, op):
-    real, m = src_of(S, op)
-    cd = lib_call(S, "coordinates", "coordinates", lambda: real.coordinates)
+def check_coords(S, real, m, feature, what=""):
+    """p.coordinates must be exactly the named column groups of the model: keys in space order,
+    every tensor bit for bit (shape, dtype, values).  Returns the dict or None."""
+    cd = lib_call(S, "coordinates", feature, lambda: real.coordinates)
     if cd is FAILED:
-        return
+        return None
     if not isinstance(cd, dict) or list(cd.keys()) != m.names:
-        S.ctx.violation("model-mismatch", "coordinates",
-                        f"keys {list(cd.keys()) if isinstance(cd, dict) else type(cd).__name__} "
+        S.ctx.violation("model-mismatch", feature,
+                        f"{what}keys {list(cd.keys()) if isinstance(cd, dict) else type(cd).__name__} "
                         f"expected {m.names}")
-        return
+        return None
     for n in m.names:
         ok, why = tensor_bits_equal(cd[n], m.cols[n])
         if not ok:
-            S.ctx.violation("model-mismatch", "coordinates",
-                            f"coordinates[{n!r}] of space {m.space_items()}: {why}")
-            return
+            S.ctx.violation("model-mismatch", feature,
+                            f"{what}coordinates[{n!r}] of space {m.space_items()}: {why}")
+            return None
+    return cd
+
+
+def op_coords(S, op):
+    real, m = src_of(S, op)
+    cd = check_coords(S, real, m, "coordinates")
+    if cd is None:
+        return
     rt = lib_call(S, "from_coordinates(p.coordinates)", "roundtrip-coordinates",
                   lambda: Points.from_coordinates(dict(cd)))
     if rt is FAILED:
@@ -1280,44 +1323,217 @@ def op_track(S, op):
         S.skipped += 1
         return
     S.cls("track")
+    check_track(S, real, m)
+
+
+def check_track(S, real, m, what=""):
+    """track_coord_gradients on `real` (model m, any float dtype). Returns True if all held."""
+    npdt = m.cols[m.names[0]].dtype
+    tdt = torch.float64 if npdt == np.float64 else torch.float32
     r = lib_call(S, "track_coord_gradients", "track", lambda: real.track_coord_gradients())
     if r is FAILED:
-        return
+        return False
     if not (isinstance(r, tuple) and len(r) == 2 and isinstance(r[0], dict)):
-        S.ctx.violation("model-mismatch", "track", f"returned {type(r).__name__}")
-        return
+        S.ctx.violation("model-mismatch", "track", f"{what}returned {type(r).__name__}")
+        return False
     cd, pts = r
     if list(cd.keys()) != m.names:
-        S.ctx.violation("model-mismatch", "track", f"coordinate keys {list(cd.keys())} expected {m.names}")
-        return
+        S.ctx.violation("model-mismatch", "track", f"{what}coordinate keys {list(cd.keys())} expected {m.names}")
+        return False
     for n in m.names:
         ok, why = tensor_bits_equal(cd[n], m.cols[n])
         if not ok:
-            S.ctx.violation("model-mismatch", "track", f"coordinates[{n!r}]: {why}")
-            return
+            S.ctx.violation("model-mismatch", "track", f"{what}coordinates[{n!r}]: {why}")
+            return False
         if not cd[n].requires_grad:
-            S.ctx.violation("model-mismatch", "track", f"coordinates[{n!r}] does not require grad")
-            return
-    if not agree(S, pts, m, "model-mismatch", "track", "points returned by track_coord_gradients"):
-        return
+            S.ctx.violation("model-mismatch", "track", f"{what}coordinates[{n!r}] does not require grad")
+            return False
+    if not agree(S, pts, m, "model-mismatch", "track", what + "points returned by track_coord_gradients"):
+        return False
     # the returned points must be connected to the returned coordinates, column by column
-    w = torch.arange(1, m.dim + 1, dtype=S.tdtype)
+    w = torch.arange(1, m.dim + 1, dtype=tdt)
     g = lib_call(S, "autograd through tracked points", "track",
                  lambda: torch.autograd.grad((pts.as_tensor * w).sum(), [cd[n] for n in m.names],
                                              allow_unused=True))
     if g is FAILED:
-        return
+        return False
     off = 0
     for n, gi in zip(m.names, g):
         d = m.cols[n].shape[-1]
-        ref = np.broadcast_to(np.arange(off + 1, off + d + 1, dtype=S.dtype), m.cols[n].shape)
+        ref = np.broadcast_to(np.arange(off + 1, off + d + 1, dtype=npdt), m.cols[n].shape)
         if gi is None or not tensor_bits_equal(gi, np.ascontiguousarray(ref))[0]:
             S.ctx.violation("model-mismatch", "track",
-                            f"gradient of weighted column sum w.r.t. {n!r} is wrong/unused")
-            return
+                            f"{what}gradient of weighted column sum w.r.t. {n!r} is wrong/unused")
+            return False
         off += d
     if real.as_tensor.requires_grad:
-        S.ctx.violation("input-modified", "track", "source points now require grad")
+        S.ctx.violation("input-modified", "track", what + "source points now require grad")
+        return False
+    return True
+
+
+# --------------------------------------------------------------------------------------
+# several calls on ONE mutable Points object
+# --------------------------------------------------------------------------------------
+TO_HOWS = ["pos", "kw", "dev-pos", "dev-kw", "tensor", "copy", "dev-only"]
+LOOK_TENSOR, LOOK_COORDS, LOOK_SELECT = 1, 2, 4
+
+
+def _to_call(how, tdt):
+    """-> (args, kwargs, text) of one accepted spelling of Points.to (arguments are handed to
+    torch.Tensor.to)."""
+    name = str(tdt).replace("torch.", "")
+    if how == "kw":
+        return (), {"dtype": tdt}, f"to(dtype={name})"
+    if how == "dev-pos":
+        return ("cpu", tdt), {}, f"to('cpu', {name})"
+    if how == "dev-kw":
+        return (), {"device": torch.device("cpu"), "dtype": tdt}, f"to(device=cpu, dtype={name})"
+    if how == "tensor":
+        return (torch.zeros(1, dtype=tdt),), {}, f"to(tensor of dtype {name})"
+    if how == "copy":
+        return (tdt,), {"copy": True}, f"to({name}, copy=True)"
+    if how == "dev-only":
+        return ("cpu",), {}, "to('cpu')"
+    return (tdt,), {}, f"to({name})"
+
+
+def _m_dtype(m):
+    return m.cols[m.names[0]].dtype
+
+
+def _m_astype(m, npdt):
+    return M(m.names, {k: np.ascontiguousarray(v.astype(npdt)) for k, v in m.cols.items()}, m.batch)
+
+
+def life_look(S, p, m, look, last, hist):
+    """Observe the object after a step: as_tensor/space/derived attributes, .coordinates and the
+    selection of every single variable by name must all describe the SAME table (the model)."""
+    what = "one object, calls so far [" + "; ".join(hist) + "]: "
+    ok = True
+    if look & LOOK_TENSOR:
+        ok = agree(S, p, m, "model-mismatch", "points-after-" + last, what + "as_tensor/space") and ok
+    if look & LOOK_COORDS:
+        ok = (check_coords(S, p, m, "coordinates-after-" + last, what) is not None) and ok
+    if look & LOOK_SELECT:
+        for n in m.names:
+            feature = "select-after-" + last
+            q = lib_call(S, f"p[..., {n!r}]", feature, lambda: p[..., n])
+            one = M([n], {n: m.cols[n]}, m.batch)
+            ok = (q is not FAILED and agree(S, q, one, "model-mismatch", feature,
+                                            what + f"p[..., {n!r}]")) and ok
+    return ok
+
+
+def op_life(S, op):
+    """A short life of ONE Points object: reads (coordinates, repr, track_coord_gradients,
+    indexing), the in-place conversion Points.to(...) and assignments are applied to the same
+    object; after the steps (per-step bit mask "look") as_tensor, coordinates and selection by
+    name are compared with the model.  The object is a private copy of a pool object; with
+    "keep" it is converted back to the dtype of the case and joins the pool at the end."""
+    real, m = src_of(S, op)
+    steps = op.get("steps") or []
+    if not m.names or m.rows == 0 or not steps or not np.isfinite(m.table(S.dtype)).all():
+        S.skipped += 1
+        return
+    p = private(S, real, m)
+    if op.get("keep"):
+        steps = list(steps) + [{"do": "to", "dtype": "case", "how": "pos", "look": 7}]
+    hist = []
+    last = "new"                 # the last call that changed the object: new | to | setitem
+    read_before = False          # .coordinates was read (directly or by repr/track) ...
+    stale_risk = False           # ... and the tensor was replaced afterwards
+    S.cls("life")
+    for st_ in steps:
+        do = st_.get("do")
+        look = int(st_.get("look", 7)) & 7
+        ok = True
+        if do == "coords":
+            hist.append("coordinates")
+            ok = check_coords(S, p, m, "coordinates-after-" + last,
+                              "one object, calls so far [" + "; ".join(hist) + "]: ") is not None
+            read_before = True
+        elif do == "repr":
+            hist.append("repr")
+            r = lib_call(S, "repr(p)", "repr", lambda: repr(p))
+            if r is FAILED:
+                return
+            if not isinstance(r, str):
+                S.ctx.violation("model-mismatch", "repr", f"repr returned {type(r).__name__}")
+                return
+            read_before = True
+        elif do == "track":
+            hist.append("track_coord_gradients")
+            ok = check_track(S, p, m, "one object, calls so far [" + "; ".join(hist) + "]: ")
+            read_before = True
+        elif do == "to":
+            cur = _m_dtype(m)
+            want = st_.get("dtype", "flip")
+            how = st_.get("how", "pos")
+            if how not in TO_HOWS:
+                raise core.HarnessError(f"unknown to-spelling {how!r}")
+            if want == "case":
+                tgt = S.dtype
+            elif want == "same" or how == "dev-only":
+                tgt = cur
+            else:
+                tgt = np.dtype(np.float32) if cur == np.float64 else np.dtype(np.float64)
+            tdt = torch.float64 if tgt == np.float64 else torch.float32
+            args, kwargs, text = _to_call(how, tdt)
+            hist.append(text)
+            replaced = tgt != cur or how == "copy"
+            r = lib_call(S, text, "to", lambda: p.to(*args, **kwargs))
+            if r is FAILED:
+                return
+            if not isinstance(r, Points):
+                S.ctx.violation("model-mismatch", "to", f"{text} returned {type(r).__name__}, expected Points")
+                return
+            p = r                      # documented use: p = p.to(...)
+            m = _m_astype(m, tgt)
+            S.cls("life:to-" + ("convert" if tgt != cur else "copy" if replaced else "noop"))
+            S.cls("life:to-how-" + how)
+            if replaced and read_before:
+                stale_risk = True
+                S.cls("life:read-then-real-to")
+            last = "to"
+        elif do == "set":
+            dec = decode_index(st_.get("idx") or {}, m, unique=True, avoid=True)
+            _note_index(S, dec, m)
+            target, rid = model_getitem(m, dec)
+            val = fresh_model(target.space_items(), target.batch, st_.get("fill", [1, 3]), _m_dtype(m))
+            vreal = build_real(S, val)
+            hist.append(dec["desc"] + " = v")
+
+            def assign():
+                p[dec["real"]] = vreal
+            r = lib_call(S, hist[-1], "setitem", assign)
+            if r is FAILED:
+                return
+            m = _model_assign(m, rid, val)
+            if stale_risk:
+                S.cls("life:read-to-set")
+            last = "setitem"
+        elif do == "get":
+            dec = decode_index(st_.get("idx") or {}, m, avoid=True)
+            _note_index(S, dec, m)
+            exp, _ = model_getitem(m, dec)
+            hist.append(dec["desc"])
+            q = lib_call(S, hist[-1], "getitem", lambda: p[dec["real"]])
+            ok = q is not FAILED and agree(S, q, exp, "model-mismatch", "getitem-after-" + last,
+                                           "one object, calls so far [" + "; ".join(hist) + "]")
+        else:
+            raise core.HarnessError(f"unknown life step {do!r}")
+        S.cls("life:" + do)
+        ok = life_look(S, p, m, look, last, hist) and ok
+        if look & LOOK_COORDS:
+            read_before = True
+        if not ok:
+            return                 # the object left the model: stop this life, keep the pool clean
+    if not life_look(S, p, m, 7, last, hist):
+        return
+    if op.get("keep") and _m_dtype(m) == S.dtype:
+        S.cls("life:kept")
+        push(S, p, m, True)
 
 
 def op_iter(S, op):
@@ -1456,7 +1672,7 @@ def op_space(S, op):
 OPS = {"new": op_new, "coords": op_coords, "get": op_get, "set": op_set, "commute": op_commute,
        "join": op_join, "join3": op_join3, "joined": op_joined, "or": op_or, "repeat": op_repeat,
        "unsq": op_unsq, "arith": op_arith, "eq": op_eq, "track": op_track, "iter": op_iter,
-       "space": op_space}
+       "space": op_space, "life": op_life}
 
 
 # ======================================================================================
@@ -1562,10 +1778,10 @@ _PROBE_ROW = st.one_of(
     _fd(t=st.just("mask"), bits=st.lists(st.booleans(), min_size=2, max_size=4),
         **{"as": st.sampled_from(["torch", "numpy"])}),
 )
-_PROBE = _fd(idx=_fd(form=st.sampled_from(["bare", "batch", "batch", "full", "ell", "ell"]),
-                     items=st.tuples(_PROBE_ROW, _ITEM, _ITEM).map(list), k=st.integers(0, 3),
-                     kp=st.integers(0, 1), sel=_SEL, bits=st.just([True])),
-             fill=_FILL)
+_PROBE_IDX = _fd(form=st.sampled_from(["bare", "batch", "batch", "full", "ell", "ell"]),
+                 items=st.tuples(_PROBE_ROW, _ITEM, _ITEM).map(list), k=st.integers(0, 3),
+                 kp=st.integers(0, 1), sel=_SEL, bits=st.just([True]))
+_PROBE = _fd(idx=_PROBE_IDX, fill=_FILL)
 _PROBE_SOME = st.one_of(st.none(), _PROBE)            # every 2nd step is followed by a write
 _PROBE_FEW = st.one_of(st.none(), st.none(), st.none(), _PROBE)
 
@@ -1587,6 +1803,21 @@ _OR_OTHER = st.one_of(
 _SIDE = st.sampled_from(["left", "left", "right"])
 
 
+# several calls on one object: reads, Points.to (mostly a real dtype change), assignments; "look" =
+# bit mask of the observers run after the step (1 as_tensor, 2 coordinates, 4 selection by name)
+_LOOK = st.sampled_from([7, 7, 7, 7, 7, 7, 0, 0, 1, 2, 4, 3, 5, 6])
+_LIFE_TO = _fd(do=st.just("to"), dtype=st.sampled_from(["flip", "flip", "flip", "same"]),
+               how=st.sampled_from(["pos", "pos", "kw", "dev-pos", "dev-kw", "tensor", "copy", "copy",
+                                    "dev-only"]), look=_LOOK)
+_LIFE_SET = _fd(do=st.just("set"), idx=st.one_of(_PROBE_IDX, _PROBE_IDX, _IDX), fill=_FILL, look=_LOOK)
+_LIFE_STEP = st.one_of(
+    _fd(do=st.just("coords"), look=_LOOK), _fd(do=st.just("coords"), look=_LOOK),
+    _fd(do=st.just("repr"), look=_LOOK), _fd(do=st.just("track"), look=_LOOK),
+    _LIFE_TO, _LIFE_TO, _LIFE_TO, _LIFE_SET, _LIFE_SET, _LIFE_SET,
+    _fd(do=st.just("get"), idx=_IDX, look=_LOOK),
+)
+
+
 def _new_op():
     return _fd(op=st.just("new"), vars=_VARS, batch=_BATCH, fill=_FILL, via=st.sampled_from(VIAS))
 
@@ -1599,8 +1830,10 @@ def _op():
                  probe=st.one_of(st.none(), _PROBE, _PROBE))
     setv = _fd(op=st.just("set"), src=_REF, idx=_IDX, fill=_FILL,
                bad=st.sampled_from([False] * 7 + [True]))
+    life = _fd(op=st.just("life"), src=_REF, steps=st.lists(_LIFE_STEP, min_size=1, max_size=8),
+               keep=st.booleans())
     return st.one_of(
-        get, get, get, get, setv, setv, setv,
+        get, get, get, get, setv, setv, setv, life, life, life,
         _fd(op=st.just("commute"), src=_REF, row=_ROW, sel=_SEL),
         _fd(op=st.just("commute"), src=_REF, row=_ROW, sel=_SEL),
         _new_op(),
@@ -1737,7 +1970,70 @@ def extra_cases(tier, seed):
             ops.append({"op": "commute", "src": 0, "row": r, "sel": {"t": "name", "pos": 1}})
         specs.append({"dtype": "float64", "init": {"op": "new", "vars": vs, "batch": batch,
                                                    "fill": [0, -1], "via": "coords"}, "ops": ops})
-    specs += _pinned_step_slices() + _pinned_probes()
+    specs += _pinned_step_slices() + _pinned_probes() + _pinned_lives()
+    return specs
+
+
+def _pinned_lives():
+    """Several calls on one Points object: a read of the coordinates (directly, through repr or
+    track_coord_gradients, or only by the observers), every spelling of Points.to with and
+    without a real change of the tensor, an assignment afterwards, reads in between / only at
+    the end; a kept object is used by later steps of the history."""
+    row = lambda v: {"t": "int", "v": v}                                       # noqa: E731
+    sl = {"t": "slice", "a": 1, "b": 2, "s": None}
+    colon = {"t": "nslice", "a": None, "b": None}
+
+    def IDX(first, sel, form="ell"):
+        return {"form": form, "items": [first, {"t": "slice", "a": None, "b": None, "s": None}],
+                "k": 1, "kp": 0, "sel": sel, "bits": [True]}
+
+    def TO(how="pos", dtype="flip", look=7):
+        return {"do": "to", "dtype": dtype, "how": how, "look": look}
+
+    def SET(idx, look=7, fill=(2, 3)):
+        return {"do": "set", "idx": idx, "fill": list(fill), "look": look}
+
+    def RD(do="coords", look=7):
+        return {"do": do, "look": look}
+    name_t = {"t": "name", "pos": 1}
+    set_t = IDX(sl, name_t)
+    set_row = IDX(row(-1), colon, "batch")
+    set_two = IDX(row(0), {"t": "names", "pos": [2, 0], "as": "tuple"})
+    specs = []
+    for bi, (dtype, batch) in enumerate([("float32", [3]), ("float64", [3]), ("float32", [2, 3]),
+                                         ("float64", [3, 1, 2])]):
+        lives = []
+        # read - convert - read - assign - read, for every spelling of to()
+        for how in TO_HOWS:
+            lives.append([RD(), TO(how), RD(), SET(set_t), RD()])
+        # the read happens through repr / track_coord_gradients / the observers only
+        lives.append([RD("repr", 0), TO("pos", look=0), RD(look=0), SET(set_t, 0), RD(look=0)])
+        lives.append([RD("track", 0), TO("kw", look=2), SET(set_two, 2)])
+        lives.append([RD("repr", 2), TO("tensor", look=4), SET(set_row, 6)])
+        # a new tensor of the same dtype: only a later assignment tells old and new tensor apart
+        lives.append([RD(), TO("copy", "same"), SET(set_t), SET(set_row)])
+        lives.append([RD(look=0), TO("copy", "same", 0), SET(set_two, 0)])
+        # never read before the conversion / conversion that changes nothing
+        lives.append([TO("pos", look=0), SET(set_t, 0), RD()])
+        lives.append([RD(), TO("pos", "same"), TO("dev-only"), SET(set_t), RD()])
+        # there and back again, assignments in both precisions, reads only at the end
+        lives.append([RD(), TO("pos", look=1), SET(set_row, 1), TO("dev-pos", look=1), SET(set_t, 1),
+                      {"do": "get", "idx": IDX(sl, name_t), "look": 0}, RD("track", 0)])
+        ops = [{"op": "life", "src": 0, "steps": st_, "keep": False} for st_ in lives]
+        # kept objects (converted, assigned, converted back) are operands of later steps
+        ops.append({"op": "life", "src": 0, "keep": True,
+                    "steps": [RD(), TO("pos"), SET(set_t), RD(look=0)]})
+        k = 1                      # pool index of the kept object (lives without keep add nothing)
+        ops += [{"op": "coords", "src": k}, {"op": "track", "src": k}, {"op": "iter", "src": k},
+                {"op": "eq", "src": k, "ref": 0, "cell": 1, "variant": "copy"},
+                {"op": "get", "src": k, "idx": IDX(sl, {"t": "names", "pos": [2, 1], "as": "list"})},
+                {"op": "commute", "src": k, "row": sl, "sel": name_t},
+                {"op": "life", "src": k, "keep": True, "steps": [TO("copy", "same"), SET(set_row), RD()]},
+                {"op": "coords", "src": 4}]          # the second kept object
+        specs.append({"dtype": dtype, "avoid_known": True,
+                      "init": {"op": "new", "vars": [["x", 2], ["t", 1], ["u", 3]], "batch": batch,
+                               "fill": [1, 2], "via": VIAS[bi % len(VIAS)]},
+                      "ops": ops})
     return specs
 
 
